@@ -123,7 +123,7 @@ func abs(n int) int {
 }
 
 // frame monitor used by sequential sessions
-func frameHeightMonitor(c *ev.Ctx, desc func() map[string]any) func(string, int, int) {
+func frameHeightMonitor(c *ev.Ctx, desc func() map[string]any, mode func() int) func(string, int, int) {
 	return func(frame string, w, h int) {
 		c.Count("frames_seen", 1)
 		if h < 2 {
@@ -160,8 +160,33 @@ func frameHeightMonitor(c *ev.Ctx, desc func() map[string]any) func(string, int,
 				}
 			}
 		}
-		for _, leak := range sc.LeakLines {
-			_ = leak
+		// the status line, when there is one, is the last row (highlighted over the full width) and nothing else is
+		if mode != nil && w >= 1 {
+			last := sc.Lines[len(sc.Lines)-1]
+			highlighted := len(last) > 0
+			for _, cell := range last {
+				if cell.A.Bg == "" {
+					highlighted = false
+				}
+			}
+			switch mode() {
+			case command, selection, opening, problem:
+				c.Count("frames_with_status_line", 1)
+				if !highlighted || len(last) != w {
+					c.Violation("frame:status-line-not-last-row", fmt.Sprintf("mode %s: the last row is %q (%d cells, highlighted=%v) on a terminal %d wide", modeName(mode()), ev.Trunc(term.LineText(last), 100), len(last), highlighted, w), desc())
+				}
+				for i, l := range sc.Lines[:len(sc.Lines)-1] {
+					full := len(l) == w && len(l) > 0
+					for _, cell := range l {
+						if cell.A.Bg == "" {
+							full = false
+						}
+					}
+					if full && strings.HasPrefix(term.LineText(l), term.LineText(last)[:1]) && term.LineText(l) == term.LineText(last) {
+						c.Violation("frame:status-line-twice", fmt.Sprintf("the status line also appears on row %d", i), desc())
+					}
+				}
+			}
 		}
 	}
 }
@@ -225,7 +250,8 @@ func TestVerifC16(t *testing.T) {
 			return map[string]any{"session": n, "last_keys": strings.Join(t, " | ")}
 		}
 		h0 := 2 + r.Intn(59)
-		x := newSession(s, 40+r.Intn(100), h0, frameHeightMonitor(c, desc))
+		var x *session
+		x = newSession(s, 40+r.Intn(100), h0, frameHeightMonitor(c, desc, func() int { return x.s.mode }))
 		entry := g.Entries[r.Intn(len(g.Entries))]
 		trail = append(trail, fmt.Sprintf("open %s at height %d", entry.ID, h0))
 		if c.Guard("frame:", desc(), func() { x.s.Subcommand("open", entry.ID) }) || !x.settle(30*time.Second) {
